@@ -61,7 +61,9 @@ pub fn gen_disclosure(cx: &mut Cx, l: usize, salt: u64) -> Vec<usize> {
         let mask = cx.ch.forced("disclosure_mask", 1 << l, cx.run_index.wrapping_mul(3).wrapping_add(salt));
         (0..l).filter(|i| mask >> i & 1 == 1).collect()
     } else {
-        match cx.ch.weighted("disclosure_kind", &[2, 2, 6]) {
+        // long credentials are disclosed completely more often: that is the only way a verifier
+        // ever handles a long list
+        match cx.ch.weighted("disclosure_kind", &if l > 200 { [0, 8, 2] } else if l > 100 { [1, 5, 4] } else { [2, 2, 6] }) {
             0 => vec![],
             1 => (0..l).collect(),
             _ => { let den = 2 + cx.ch.choose("disclosure_density", 4); (0..l).filter(|_| cx.ch.choose("d", den) == 0).collect() }
@@ -222,14 +224,14 @@ fn deliver_corrupted(cx: &mut Cx, s: u64, f: Presentation, l: usize, issuer: Nod
     // (3) disclosed data: every single-element fault of the message list; index corruption;
     //     consistent edits of (index, message) pairs
     let r = lnorm(&f.dmsgs).len();
-    for lf in ListFault::all(r) {
+    for lf in ListFault::pick(&mut cx.ch, r, 80, 20) {
         let mut g = f.clone();
         let mut v = g.dmsgs.take().unwrap_or_default();
         lf.apply(&mut v, cx.run_seed);
         g.dmsgs = Some(v);
         deliver(cx, verifier, g, format!("dmsgs_{}", lf.kind()), ideal.clone());
     }
-    for pos in 0..r {
+    for pos in (0..r).filter(|&p| r <= 8 || p == 0 || p == r / 2 || p + 1 == r) {
         let honest = inorm(&f.didx)[pos];
         for c in int_corruptions(honest, l) {
             let mut g = f.clone();
